@@ -220,6 +220,9 @@ def c10(tier):
         jobs.append(codes_job(kind, k if kind in (1, 3) else (k + 1), False, "shared"))
     jobs.append(codes_job(3, k, True, "separate20"))
     jobs.append(codes_job(1, k, True, "separate20"))
+    # one row of the table per call from any state: command handler loops and event handler loops (step jobs)
+    jobs += step_jobs("C10", tier, pairs=[(13, 0), (14, 0), (15, 0), (16, 0), (0, 3), (0, 4), (14, 4), (16, 3), (13, 6)])
+    jobs += [list_job("C10", 20, 22, "m2.cap10to11")]
     return with_prop("C10", jobs)
 
 
@@ -382,15 +385,20 @@ def twin_job(prop, mode, shape, r=2, cap=(12, 24), **kw):
     return j
 
 
-TWIN_SHAPES_QUICK = ["ATL", "ATnL", "ATnn?L", "ATn=aL", "ATnn=aaL", "ATn=?L", "gxL", "ATngL"]
+TWIN_SHAPES_QUICK = ["ATL", "ATnL", "ATnn?L", "ATn=aL", "ATn=?L", "gxL", "ATngL"]
+TWIN_SHAPES_THOROUGH = TWIN_SHAPES_QUICK + ["ATnn=aaL", "ATnnnL", "ATn=aaaL", "ATnn=?L", "ATn?xL"]
 
 
 def c20(tier):
-    jobs = [twin_job("C20", 0, sh) for sh in TWIN_SHAPES_QUICK]
+    jobs = [twin_job("C20", 0, sh) for sh in (TWIN_SHAPES_QUICK if tier == "quick" else TWIN_SHAPES_THOROUGH)]
     # concatenation: line 2 after line 1 == line 2 alone (first lines chosen to leave the parser through every exit)
-    m3 = [("AT+kaaaaaaLAT+kL", (12, 12)), ("gxLAT+k?L", (12, 16))]
+    # quick: pinned table, over-long implicit-write first line (the exit that skips the normal end of argument parsing)
+    jobs.append(twin_job("C20", 3, "AT+3aaaaaaLAT+kL", cap=(12, 12)))
+    jobs[-1].defines["PIN_TABLE"] = None
+    jobs[-1].name += ".pinned"
+    m3 = [("gxLAT+k?L", (12, 16))]
     if tier == "thorough":
-        m3 += [("AT+k=aLAT+k?L", (12, 16)), ("AT+k?LAT+k=aL", (12, 16)), ("AT+kgLAT+kL", (12, 16)), ("AT+k=?xLAT+kL", (12, 16)), ("AT+kaaaaaaaLAT+k=aL", (12, 12))]
+        m3 += [("AT+kaaaaaaLAT+kL", (12, 12)), ("AT+k=aLAT+k?L", (12, 16)), ("AT+k?LAT+k=aL", (12, 16)), ("AT+kgLAT+kL", (12, 16)), ("AT+k=?xLAT+kL", (12, 16)), ("AT+kaaaaaaaLAT+k=aL", (12, 12))]
     for sh, cap in m3:
         jobs.append(twin_job("C20", 3, sh, cap=cap))
     for shape in ("ATnRL", "ATn?RL", "RATnL", "ATRnL", "ATn=aRL", "AgRL"):
@@ -414,6 +422,9 @@ def c08(tier):
         jobs.append(Job("k_num.vt%d.len8" % vt, "k_num.c", {"VT": vt, "LEN": 8, "DS": 0}, unwind=14, timeout=600, samples=20000))
     for vt in (3, 4):
         jobs.append(Job("k_buf.vt%d.len10" % vt, "k_buf.c", {"VT": vt, "LEN": 10}, unwind=16, timeout=600, samples=20000))
+    # second clause: READ / WRITE refused exactly when nothing is readable / writable and there is no handler
+    jobs.append(Job("k_access.nv3", "k_access.c", {"NV": 3}, unwind=34, timeout=300, samples=100000,
+                    required_witness=["end-of-scenario", "read-refused", "writable-in-the-middle"]))
     return with_prop("C08", jobs)
 
 
